@@ -1,4 +1,6 @@
 import LhasaV.Lemmas.HeaderSound
+import LhasaV.Lemmas.StreamProps
+import LhasaV.Lemmas.ReaderLedger
 /-!
 # C08 — no archive bytes can make the library or tool touch invalid memory or abort
 -/
@@ -17,5 +19,18 @@ theorem header_consumes_within (mk : Nat → Nat) (inp : Bytes) (h : Header.Hdr)
     (hr : Header.read mk inp = .ok (h, rest)) : h.raw.length ≤ inp.length ∧ rest = inp.drop h.raw.length := by
   obtain ⟨⟨k, hk, hrest, hle⟩, _⟩ := Header.read_consumes mk inp h rest hr
   subst hk; exact ⟨hle, hrest⟩
+
+/-- The self-extractor scan and every stream read: all lead-in buffer accesses (the 12-byte marker
+compare, the signature bytes) are in range and the buffer never holds more than its 24 bytes. -/
+theorem leadin_no_fault (s : Stream.St) (n : Nat) (h : s.leadin.length ≤ 24) :
+    Res.NoFault (Stream.start s) ∧ Res.NoFault (Stream.read s n) :=
+  ⟨Stream.start_noFault s h, Stream.read_noFault s n h⟩
+
+/-- Header ownership in the reader, for EVERY call history (legal or not): the ledger never records
+a double free or a reference to a freed header, and the reference count of every header equals
+the number of its owners — so the header handed to the caller is alive while it is current. -/
+theorem reader_no_uaf (st : Stream.St) (pol : Reader.DirPolicy) (mk : Nat → Nat) (ops : List Reader.Op) :
+    Reader.Inv (Reader.run (Reader.fresh st pol mk) ops) :=
+  Reader.run_inv (Reader.inv_fresh st pol mk) ops
 
 end LhasaV.Props.C08
